@@ -528,13 +528,42 @@ def clientBatch {W : Type} (S : ServerEnv) (K : ClientEnv) (c : Codec W) (R : Re
   let so := serverBatch S c R batchFallback steps tb
   (clientInvoke K c true so.reply, so.conn)
 
+/-! ### client: `_RemoteMethod.__call__` (client.py 507-515), the retry loop around a *method* call
+    (attribute reads / writes, batches and stream items call `_pyroInvoke` directly) -/
+
+/-- `except (errors.ConnectionClosedError, errors.TimeoutError)` -/
+def retryable (K : ClientEnv) : Outcome → Bool
+  | .connLost => true
+  | .raised e => (K.info e.cls).isConnClosed || (K.info e.cls).isPyroTimeout
+  | _ => false
+
+/-- `for attempt in range(bound): try: return send() except (…): if attempt >= max_retries: raise`.
+    `run attempt` = what `self.__send(…)` does at that attempt; `remaining` = iterations left.
+    Result: what the call does (`none` = the loop ran out: **the call returns None**) and how many times it sent. -/
+def retryLoop (K : ClientEnv) (maxRetries : Nat) (run : Nat → ClientOut × ConnFate) :
+    (remaining attempt : Nat) → Option (ClientOut × ConnFate) × Nat
+  | 0, attempt => (none, attempt)
+  | n + 1, attempt =>
+    let r := run attempt
+    if retryable K r.1.outcome then
+      if attempt ≥ maxRetries then (some r, attempt + 1) else retryLoop K maxRetries run n (attempt + 1)
+    else (some r, attempt + 1)
+
+/-- the loop bound of the code: `range(self.__max_retries + 1)` -/
+def retryBound (maxRetries : Nat) : Nat := maxRetries + 1
+
+/-- a method call through a proxy with `_pyroMaxRetries = maxRetries`; `bound` = length of the range -/
+def remoteMethod (K : ClientEnv) (bound maxRetries : Nat) (run : Nat → ClientOut × ConnFate) :
+    Option (ClientOut × ConnFate) × Nat :=
+  retryLoop K maxRetries run bound 0
+
 /-- the next call on the same proxy goes through: the server kept the connection, or the proxy dropped its own end
     and reconnects -/
 def usableAfter (o : ClientOut × ConnFate) : Bool := o.2 == .active || o.1.released
 
 /-! ### instantiation from the extracted tables -/
 
-def defaultFlags : Flags := ⟨true, false, false, false, false, false, false⟩
+def defaultFlags : Flags := ⟨true, false, false, false, false, false, false, false⟩
 
 /-- relations of a class: from the extracted table; an application class (not in the table) is taken to derive
     from `Exception` only -/
